@@ -12,6 +12,7 @@ import (
 	"os/exec"
 	"path/filepath"
 	"runtime/debug"
+	"strconv"
 	"strings"
 	"time"
 
@@ -578,6 +579,8 @@ func (e Engine) Run(t *simrt.Tape, c simrt.Case, x *simrt.Ctx) *simrt.Result {
 			{`ab{18446744073709551615}c`, "repeat_overflow"}, {`[0-9]{0,9223372036854775808}`, "repeat_overflow"},
 			{`(x|y){13835058055282163712}?`, "repeat_overflow"}, {`a{2,99999999999999999999999999}`, "repeat_overflow"},
 			{`a{18446744073709551617,}`, "repeat_overflow"},
+			// nesting depth: the regex parsers recurse once per open group
+			{"@nest:2000", "control"}, {"@nest:2000000", "deep_nesting"},
 		}
 		for _, pr := range probes {
 			p := pr.p
@@ -594,7 +597,9 @@ func (e Engine) Run(t *simrt.Tape, c simrt.Case, x *simrt.Ctx) *simrt.Result {
 			case err := <-done:
 				if err != nil {
 					outcome = "died"
-					if strings.Contains(out.String(), "out of memory") {
+					if strings.Contains(out.String(), "stack overflow") || strings.Contains(out.String(), "goroutine stack exceeds") {
+						outcome = "stack_overflow"
+					} else if strings.Contains(out.String(), "out of memory") {
 						outcome = "out_of_memory"
 					} else if strings.Contains(out.String(), "panic:") || strings.Contains(out.String(), "fatal error:") {
 						outcome = "panic"
@@ -943,6 +948,11 @@ func (e Engine) runCLI(res *simrt.Result, x *simrt.Ctx, dir, class string, args 
 
 // PatternProbe compiles one pattern with both back ends (run in a memory-limited child process).
 func PatternProbe(p string) {
+	// "@nest:N" stands for N nested groups around one character (too long for a command line)
+	if strings.HasPrefix(p, "@nest:") {
+		n, _ := strconv.Atoi(strings.TrimPrefix(p, "@nest:"))
+		p = strings.Repeat("(", n) + "a" + strings.Repeat(")", n)
+	}
 	if n, err := nfa.Parse(p); err == nil && n != nil {
 		n.ToDFA()
 	}
